@@ -1,6 +1,7 @@
 package main
 
 import (
+	"github.com/carapace-sh/carapace/third_party/github.com/elves/elvish/pkg/ui"
 	"encoding/json"
 	"os"
 	"strings"
@@ -14,6 +15,7 @@ import (
 
 type fmtEnv struct {
 	Unfiltered   bool              `json:"unfiltered"`
+	BoolVal      string            `json:"boolVal"` // the text the boolean switches are set to when on or off-by-value ("" = "1" / unset)
 	Nospace      string            `json:"nospace"`
 	NoColor      bool              `json:"nocolor"`
 	CI           bool              `json:"ci"`
@@ -97,6 +99,25 @@ func genDescription(r *rng) string {
 // completion type varies (listing vs inserting), so the collapsed single text takes every branch.
 func genFmtCollapse(r *rng) fmtIn {
 	in := fmtIn{Shell: pick(r, []string{"bash", "bash", "tcsh"})}
+	if r.chance(35) {
+		// displays and values ordered differently: the common prefix of the values must be taken over
+		// all candidates, not over the first and last in display order
+		stem := pick(r, []string{"ma", "v", "re"})
+		pa, pb := pick(r, []string{"refs/heads/", "x/a/", "k="}), pick(r, []string{"refs/tags/", "x/b/", "q="})
+		ds := []string{stem + "in", stem + "int", stem + "ster", stem + "x"}[:3+r.intn(2)]
+		for i, d := range ds {
+			p := pa
+			if i == 1 || (i == 2 && len(ds) == 4) {
+				p = pb
+			}
+			in.Values = append(in.Values, fmtValue{Value: p + d, Display: d})
+		}
+		in.Word = pick(r, []string{"", pa[:1], pa[:len(pa)/2]})
+		if in.Shell == "bash" {
+			in.Env.BashCompType = pick(r, []string{"9", "", "63"})
+		}
+		return in
+	}
 	common := pick(r, []string{"my file", "a$b", "x;y", "it's", `say "`, "a&b", "p(q", "dir/sub dir/", "k=v w", "été là", "a\\b", "tab*"})
 	n := 2 + r.intn(3)
 	for i := 0; i < n; i++ {
@@ -166,7 +187,7 @@ func genFmt(r *rng, tier string) interface{} {
 	if r.chance(40) {
 		common = genText(r, 4, exotic)
 	}
-	styles := []string{"", "", "red", "blue", "bold", "bg-red green", "underlined"}
+	styles := []string{"", "", "red", "blue", "bold", "bg-red green", "underlined", "reed", "#12", "bold bluee"}
 	tags := []string{"", "", "", "files", "shorthand flags", "longhand flags", "other commands"}
 	for i := 0; i < nvals; i++ {
 		v := common + genText(r, 6, exotic)
@@ -242,10 +263,18 @@ func genFmt(r *rng, tier string) interface{} {
 	}
 	// environment
 	in.Env.Unfiltered = r.chance(10)
+	if r.chance(15) {
+		// boolean switches are on for "1" and "true" only: anything else, though set, means off
+		in.Env.BoolVal = pick(r, []string{"true", "0", "false", "no", "off", "TRUE", "yes", "2", " "})
+		in.Env.Unfiltered = in.Env.BoolVal == "true"
+	}
 	if r.chance(10) {
 		in.Env.Nospace = pick(r, []string{"/", "=:", "*", "a"})
 	}
 	in.Env.NoColor = r.chance(10)
+	if in.Env.BoolVal != "" {
+		in.Env.NoColor = in.Env.BoolVal == "true"
+	}
 	in.Env.CI = r.chance(15)
 	switch in.Shell {
 	case "bash", "tcsh":
@@ -314,6 +343,10 @@ func runFmt(raw json.RawMessage) interface{} {
 	style.Carapace = styleBackup
 	setenvBool("CARAPACE_UNFILTERED", in.Env.Unfiltered)
 	setenvBool("NO_COLOR", in.Env.NoColor)
+	if in.Env.BoolVal != "" {
+		os.Setenv("CARAPACE_UNFILTERED", in.Env.BoolVal)
+		os.Setenv("NO_COLOR", in.Env.BoolVal)
+	}
 	os.Unsetenv("CLICOLOR")
 	os.Unsetenv("CARAPACE_EXPERIMENTAL")
 	os.Unsetenv("CARAPACE_TOOLTIP")
@@ -352,7 +385,14 @@ func runFmt(raw json.RawMessage) interface{} {
 	if tokens, err := shlex.Split("cmd " + in.Env.ZshRaw); err == nil {
 		rawToken = tokens.CurrentToken().RawValue
 	}
-	return map[string]interface{}{"raw": out, "errStyle": style.Carapace.Error, "dfltStyle": style.Default, "zshRawToken": rawToken}
+	// which of the input styles the elvish formatter can express
+	styleOk := map[string]bool{}
+	for _, v := range in.Values {
+		if v.Style != "" {
+			styleOk[v.Style] = ui.ParseStyling(v.Style) != nil
+		}
+	}
+	return map[string]interface{}{"raw": out, "errStyle": style.Carapace.Error, "dfltStyle": style.Default, "zshRawToken": rawToken, "styleOk": styleOk}
 }
 
 func init() {
